@@ -125,7 +125,8 @@ def summary_for(pid, jobs=16):
             "neutral_cannot_decide": sorted(k for k, v in r["neutral"].items() if v["checks"].get(pid) not in (0, 1)),
             "neutral_alarms": sorted(k for k, v in r["neutral"].items() if v["checks"].get(pid) == 1),
             "breaking": "%d fired / %d" % (sum(1 for v in r["breaking"].values() if v["checks"].get(pid) == 1), len(r["breaking"])),
-            "breaking_missed": sorted(k for k, v in r["breaking"].items() if v["checks"].get(pid) != 1),
+            "breaking_missed": sorted(k for k, v in r["breaking"].items() if v["checks"].get(pid) != 1 and k not in r.get("by_design_undecided", [])),
+            "breaking_outside_the_check_by_design": sorted(r.get("by_design_undecided", [])),
             "skipped": [s["id"] for s in r["skipped"]], "wall_s": r["wall_s"]}
 
 
